@@ -161,7 +161,7 @@ class H:
     """one harness: which real functions go under the solver, which are environment stubs, and how cbmc is run"""
     def __init__(s, name, file, entries, stubs=(), noglobal=(), icall_only=(), blocking=(), visible=(), seq=False, nt=2, heap=1024, pagewords=32,
                  defines=(), cbmc=(), mode='all', witness='inline', tiers=('quick', 'thorough'), timeout=600, symbolic=True, note='', nsw=False,
-                 unwind=None, unwindset=None, mem_gb=24, extra_tus=(), backend=None, flat=True, expect_fail=(), stack_extra=0, weak_cas=False, prune_init=True, probes=None, witness_any=False):
+                 unwind=None, unwindset=None, mem_gb=24, extra_tus=(), backend=None, flat=True, expect_fail=(), stack_extra=0, weak_cas=False, prune_init=True, probes=None, witness_any=False, paths=False):
         s.__dict__.update(locals()); del s.__dict__['s']
 
 def translate(h, wd):
@@ -209,11 +209,13 @@ def cbmc_cmd(h, wd, witness_define, trace=True):
     if h.unwind is not None: cmd += ['--unwind', str(h.unwind), '--unwinding-assertions']
     if h.unwindset: cmd += ['--unwindset', h.unwindset]
     if h.mode == 'stop': cmd += ['--stop-on-fail']
+    if h.paths: cmd += ['--paths', 'lifo']     # path-wise symbolic execution: control flow (hence every pointer) is concrete on each path, data stays symbolic; one SAT query per path
     if trace: cmd += ['--trace']
     if h.backend == 'z3': cmd += ['--z3']
     elif h.backend == 'cvc5': cmd += ['--cvc5']
     elif h.backend == 'kissat': cmd += ['--external-sat-solver', 'kissat']
-    elif h.backend == 'cadical': cmd += ['--sat-solver', 'cadical']
+    elif h.backend in ('cadical', None): cmd += ['--sat-solver', 'cadical']      # default back end: cadical (minisat stalled on single path queries of the heap harnesses: 10 s vs 0.07 s)
+    elif h.backend == 'minisat': pass
     cmd += list(h.cbmc)
     return cmd
 
@@ -326,8 +328,13 @@ def run_harness(h, tier, outdir):
     if h.witness == 'twin': runs.append(('witness', True))
     res['runs'] = []
     for tag, wdef in runs:
-        cmd = cbmc_cmd(h, wd, wdef)
+        cmd = cbmc_cmd(h, wd, wdef, trace=not h.paths)      # path mode: no trace on the first run (trace construction for the witness of every path dominates); re-run with --trace on a real failure
         r = run_cmd(cmd, min(h.timeout, int(os.environ.get('VERIF_TIMEOUT', '100000'))), h.mem_gb, cwd=wd)
+        if h.paths and not r['timeout']:
+            v0, p0, _ = parse_cbmc(r['out'])
+            if any(p['status'] != 'SUCCESS' and not p['desc'].startswith('witness') for p in p0):
+                cmd = cbmc_cmd(h, wd, False, trace=True)
+                r = run_cmd(cmd, min(h.timeout, int(os.environ.get('VERIF_TIMEOUT', '100000'))), h.mem_gb, cwd=wd)
         open(os.path.join(wd, 'cbmc_%s.log' % tag), 'w').write(' '.join(cmd) + '\n' + r['out'] + '\n--- stderr ---\n' + r['err'])
         verdict, props, st = parse_cbmc(r['out'])
         rr = dict(tag=tag, cmd=' '.join(cmd), wall_s=round(r['wall'], 2), rss_mb=r['rss_mb'], verdict=verdict, nprops=len(props), stats=st)
@@ -416,6 +423,7 @@ def run_property(pid, harnesses, tier, level='model_checking', assumptions=(), t
     outdir = os.path.join(WORK, pid); shutil.rmtree(outdir, ignore_errors=True); os.makedirs(outdir, exist_ok=True)
     evp = os.path.join(VERIF, 'evidence', pid + '.json')
     hs = [h for h in harnesses if tier in h.tiers]
+    seen = set(); hs = [h for h in hs if not (h.name in seen or seen.add(h.name))]      # duplicate registrations are run once
     for h in hs: h.pid = pid
     build_ir()   # once, before the parallel part
     for h in hs:
